@@ -71,6 +71,32 @@ def cases(tier, seed):
         c.update({"cid": f"c18-{seed}-ds{k}", "lib": rng.choice(["ufoLib2", "defcon"]), "writers": "default", "ds": True,
                   "rule": [src, "x.alt"], "fn": rng.choice(["interp", "interp", "var-merge", "var-features"])})
         out.append(c)
+    # a glyph with cursive anchors that is reachable from a letter ONLY through a substitution whose input or context also
+    # holds a direction-neutral glyph (contextual / ligature rules): it takes the letter's direction
+    rng2 = random.Random(seed * 236887691 + 180018)
+    import re as _re
+
+    for k in range(12 if tier == "quick" else 150):
+        c = layout_gen.gdefcurs_font(rng2)
+        names = c["ufo"]["glyphNames"]
+        P = 1024
+        letter = "a" if k % 3 != 2 else "beh-ar"
+        for n_, cp in (("x.alt", None), ("period", 0x2E), (letter, 0x61 if letter == "a" else 0x628)):
+            if n_ not in names:
+                names.append(n_)
+                c["ufo"]["glyphs"][n_] = {"cs": [layout_gen.box()], "comps": [], "anchors": [], "w": 500 * P, "h": 0, "u": [cp] if cp else []}
+        if "order" in c["ufo"]:
+            c["ufo"]["order"] = list(names)
+        c["ufo"]["glyphs"]["x.alt"]["anchors"] = [{"n": "entry", "x": 300 * P, "y": 0}, {"n": "exit", "x": 0, "y": 20 * P}]
+        fea_ = _re.sub(r"table GDEF \{.*?\} GDEF;", "", c["ufo"]["fea"], flags=_re.S)
+        fea_ = "\n".join(l for l in fea_.split("\n") if "x.alt" not in l)
+        rule = [f"sub period {letter}' by x.alt;", f"sub {letter} period by x.alt;", f"sub {letter}' period by x.alt;"][k % 3]
+        c["ufo"]["fea"] = fea_ + "\nfeature calt {\n " + rule + "\n} calt;"
+        c["userClasses"] = None
+        if c.get("kwargs", {}).get("skipExportGlyphs"):
+            c["kwargs"]["skipExportGlyphs"] = [n_ for n_ in c["kwargs"]["skipExportGlyphs"] if n_ not in ("x.alt", "period", letter)]
+        c.update({"cid": f"c18-{seed}-cx{k}", "lib": rng2.choice(["ufoLib2", "defcon"]), "writers": "default"})
+        out.append(c)
     return out
 
 
